@@ -163,6 +163,10 @@ def extract_reuse_info(text: str) -> ReuseInfo:
         for pattern in _COPYRIGHT_PATTERNS:
             match = pattern.search(line)
             if match is not None:
+                # A tag (or the word 'Copyright') that is followed by nothing
+                # names neither a year nor a holder.
+                if not (match["year"] or match["statement"].strip()):
+                    break
                 value = match.groupdict()["copyright"].strip()
                 # Like find_spdx_tag(), strip the closing part of an ASCII art
                 # frame: the inverse of what precedes the notice on its line.
@@ -253,7 +257,9 @@ def find_spdx_tag(text: str, pattern: re.Pattern) -> Iterator[str]:
         ):
             value = value[: -len(suffix)]
 
-        yield value.strip()
+        # A tag without a value declares nothing.
+        if value.strip():
+            yield value.strip()
 
 
 def filter_ignore_block(text: str) -> str:
